@@ -18,7 +18,6 @@ Lemma conv_fill_checked : checked conv_fill. Proof. apply kind_checked. reflexiv
 Lemma conv_clipboard_checked : checked conv_clipboard. Proof. apply kind_checked. reflexivity. Qed.
 Lemma conv_icy_first_checked : checked conv_icy_first. Proof. apply kind_checked. reflexivity. Qed.
 Lemma conv_icy_cont_checked : checked conv_icy_cont. Proof. apply kind_checked. reflexivity. Qed.
-Lemma conv_glyphs_checked : checked conv_glyphs. Proof. apply kind_checked. reflexivity. Qed.
 Lemma conv_checksum_checked : checked conv_checksum. Proof. apply kind_checked. reflexivity. Qed.
 Lemma conv_u8data_checked : checked conv_u8data. Proof. apply kind_checked. reflexivity. Qed.
 Lemma conv_psf2_checked : checked conv_psf2. Proof. apply kind_checked. reflexivity. Qed.
@@ -370,31 +369,115 @@ Proof. intros s H. rewrite str_icy_lossy. apply utf8_lossy_id_proof. exact H. Qe
 
 (* ------------------------------------------------------------------ fonts *)
 Definition key_scalar (kg : N * list N) : Prop := scalar (fst kg).
+Definition key_below_max (kg : N * list N) : Prop := fst kg < MAX_GLYPHS.
+(* one of the two std conversions: what Gen/TextSitesGen.v can say about a site (conv_*_kind) *)
+Definition std_conv (conv : N -> option N) : Prop := conv = char_from_u32 \/ conv = char_from_u32_unchecked.
 
+(* the regenerated constant: everything below it is a char (a larger MAX_GLYPHS breaks this lemma) *)
+Lemma max_glyphs_le : MAX_GLYPHS <= 0xD800.
+Proof. apply N.leb_le. reflexivity. Qed.
+
+Lemma max_glyphs_eq : MAX_GLYPHS = 0xD800.
+Proof. reflexivity. Qed.
+
+Lemma below_max_scalar : forall c, c < MAX_GLYPHS -> scalar c.
+Proof. intros c H. pose proof max_glyphs_le. left. lia. Qed.
+
+Lemma std_conv_some : forall conv, std_conv conv -> forall x c, conv x = Some c -> c = x.
+Proof.
+  intros conv [-> | ->] x c H.
+  - apply char_from_u32_some in H. tauto.
+  - unfold char_from_u32_unchecked in H. injection H as <-. reflexivity.
+Qed.
+
+Lemma std_conv_below : forall conv, std_conv conv -> forall x, x < MAX_GLYPHS -> conv x = Some x.
+Proof.
+  intros conv [-> | ->] x H; [|reflexivity]. apply char_from_u32_scalar. apply below_max_scalar. exact H.
+Qed.
+
+(* the loop test `font_height > 0 && data.len() >= font_height && ch < MAX_GLYPHS`, negated *)
+Definition glyphs_stop (h : nat) (ch : N) (data : list N) : bool :=
+  Nat.eqb h 0 || shorter data h || (MAX_GLYPHS <=? ch).
+
+Lemma glyphs_loop_eq : forall conv fuel h ch data, glyphs_loop conv fuel h ch data =
+  if glyphs_stop h ch data then Done [] else
+  match fuel with
+  | O => Diverge
+  | S f => match take h data with
+           | None => Panic
+           | Some (g, rest) => let tl := glyphs_loop conv f h (ch + 1) rest in
+                               match conv ch with Some c => omap (cons (c, g)) tl | None => tl end
+           end
+  end.
+Proof. intros conv fuel h ch data. destruct fuel; reflexivity. Qed.
+
+Lemma glyphs_stop_false : forall h ch data, glyphs_stop h ch data = false ->
+  (0 < h)%nat /\ (h <= length data)%nat /\ ch < MAX_GLYPHS.
+Proof.
+  intros h ch data H. unfold glyphs_stop in H.
+  apply orb_false_iff in H. destruct H as [H H3]. apply orb_false_iff in H. destruct H as [H1 H2].
+  rewrite shorter_spec in H2. apply Nat.eqb_neq in H1. apply Nat.ltb_ge in H2. apply N.leb_gt in H3. lia.
+Qed.
+
+Lemma glyphs_stop_false_intro : forall h ch data, (0 < h)%nat -> (h <= length data)%nat -> ch < MAX_GLYPHS ->
+  glyphs_stop h ch data = false.
+Proof.
+  intros h ch data H1 H2 H3. unfold glyphs_stop. rewrite shorter_spec.
+  apply orb_false_iff. split; [apply orb_false_iff; split|].
+  - apply Nat.eqb_neq. lia.
+  - apply Nat.ltb_ge. exact H2.
+  - apply N.leb_gt. exact H3.
+Qed.
+
+(* whatever a checked conversion yields is scalar (any loop bound) *)
 Lemma glyphs_loop_scalar : forall conv, checked conv -> forall fuel h ch data g,
   glyphs_loop conv fuel h ch data = Done g -> Forall key_scalar g.
 Proof.
-  intros conv CK. induction fuel as [|f IH]; intros h ch data g H.
-  - destruct data; [injection H as <-; constructor|discriminate].
-  - destruct data as [|a r]; [injection H as <-; constructor|].
-    cbn [glyphs_loop] in H.
-    destruct (take h (a :: r)) as [[gl rest]|]; [|discriminate].
-    destruct (conv ch) as [c|] eqn:E.
-    + apply omap_done in H. destruct H as [g' [H ->]]. constructor.
-      * unfold key_scalar. cbn. eapply CK. exact E.
-      * eapply IH. exact H.
+  intros conv CK. induction fuel as [|f IH]; intros h ch data g H; rewrite glyphs_loop_eq in H;
+    (destruct (glyphs_stop h ch data); [injection H as <-; constructor|]); [discriminate|].
+  destruct (take h data) as [[gl rest]|]; [|discriminate]. cbv zeta in H.
+  destruct (conv ch) as [c|] eqn:E.
+  - apply omap_done in H. destruct H as [g' [H ->]]. constructor.
+    + unfold key_scalar. cbn. eapply CK. exact E.
     + eapply IH. exact H.
+  - eapply IH. exact H.
 Qed.
 
-Lemma glyphs_done : forall conv h data g, glyphs conv h data = Done g ->
-  glyphs_loop conv (length data) h 0 data = Done g.
+(* the loop bound alone keeps every key below MAX_GLYPHS, with either conversion *)
+Lemma glyphs_loop_below : forall conv, std_conv conv -> forall fuel h ch data g,
+  glyphs_loop conv fuel h ch data = Done g -> Forall key_below_max g.
 Proof.
-  intros conv h data g H. unfold glyphs in H. destruct h; [destruct data; [exact H|discriminate]|exact H].
+  intros conv SC. induction fuel as [|f IH]; intros h ch data g H; rewrite glyphs_loop_eq in H;
+    (destruct (glyphs_stop h ch data) eqn:G; [injection H as <-; constructor|]); [discriminate|].
+  apply glyphs_stop_false in G. destruct G as [_ [_ G]].
+  destruct (take h data) as [[gl rest]|]; [|discriminate]. cbv zeta in H.
+  destruct (conv ch) as [c|] eqn:E.
+  - apply omap_done in H. destruct H as [g' [H ->]]. constructor.
+    + unfold key_below_max. cbn. rewrite (std_conv_some _ SC _ _ E). exact G.
+    + eapply IH. exact H.
+  - eapply IH. exact H.
 Qed.
 
+Lemma below_max_keys_scalar : forall g, Forall key_below_max g -> Forall key_scalar g.
+Proof. intros g H. eapply Forall_impl; [|exact H]. intros kg K. apply below_max_scalar. exact K. Qed.
+
+Lemma conv_glyphs_std : std_conv conv_glyphs. Proof. exact conv_glyphs_kind. Qed.
+
+Lemma glyphs_keys_below_max_proof : forall conv, std_conv conv -> forall h data g,
+  glyphs conv h data = Done g -> Forall key_below_max g.
+Proof. intros conv SC h data g H. eapply glyphs_loop_below; [exact SC|exact H]. Qed.
+
+(* proved from the loop bound (so for whichever conversion the site calls) *)
 Lemma stored_scalar_glyphs_proof : forall h data g,
   glyphs conv_glyphs h data = Done g -> Forall key_scalar g.
-Proof. intros h data g H. apply glyphs_done in H. eapply glyphs_loop_scalar; [exact conv_glyphs_checked|exact H]. Qed.
+Proof.
+  intros h data g H. apply below_max_keys_scalar. eapply glyphs_keys_below_max_proof; [exact conv_glyphs_std|exact H].
+Qed.
+
+(* and from the conversion alone (for whatever loop bound), when the site calls the checked one *)
+Lemma stored_scalar_glyphs_checked_proof : forall conv, checked conv -> forall h data g,
+  glyphs conv h data = Done g -> Forall key_scalar g.
+Proof. intros conv CK h data g H. eapply glyphs_loop_scalar; [exact CK|exact H]. Qed.
 
 Lemma skipn_add : forall A (l : list A) a b, skipn a (skipn b l) = skipn (b + a) l.
 Proof.
@@ -402,63 +485,96 @@ Proof.
   destruct l as [|x r]; [cbn; destruct a; reflexivity|]. cbn [skipn Nat.add]. apply IH.
 Qed.
 
-(* every entry of the glyph map is (i, i-th chunk of the data) for a glyph index i that is a scalar value *)
-Lemma glyphs_loop_keys : forall fuel h ch data g, glyphs_loop char_from_u32 fuel h ch data = Done g ->
+(* every entry of the glyph map is (i, i-th chunk of the data) for a glyph index i below MAX_GLYPHS *)
+Lemma glyphs_loop_keys : forall conv, std_conv conv -> forall fuel h ch data g,
+  glyphs_loop conv fuel h ch data = Done g ->
   forall k gl, In (k, gl) g ->
-  ch <= k /\ scalar k /\ gl = firstn h (skipn (N.to_nat (k - ch) * h) data) /\
+  ch <= k /\ k < MAX_GLYPHS /\ gl = firstn h (skipn (N.to_nat (k - ch) * h) data) /\
   ((N.to_nat (k - ch) + 1) * h <= length data)%nat.
 Proof.
-  induction fuel as [|f IH]; intros h ch data g H k gl I.
-  - destruct data; [injection H as <-; destruct I|discriminate].
-  - destruct data as [|a r]; [injection H as <-; destruct I|].
-    cbn [glyphs_loop] in H.
-    destruct (take h (a :: r)) as [[g0 rest]|] eqn:T; [|discriminate].
-    apply take_some in T. destruct T as [-> [-> L]].
-    assert (TL : forall g', glyphs_loop char_from_u32 f h (ch + 1) (skipn h (a :: r)) = Done g' -> In (k, gl) g' ->
-                 ch <= k /\ scalar k /\ gl = firstn h (skipn (N.to_nat (k - ch) * h) (a :: r)) /\
-                 ((N.to_nat (k - ch) + 1) * h <= length (a :: r))%nat).
-    { intros g' Hg' I'. destruct (IH _ _ _ _ Hg' _ _ I') as [LE [SC [EQ LEN]]].
-      assert (S1 : N.to_nat (k - ch) = S (N.to_nat (k - (ch + 1)))) by lia.
-      split; [lia|]. split; [exact SC|]. rewrite S1. split.
-      - rewrite EQ. rewrite skipn_add. cbn [Nat.mul]. reflexivity.
-      - rewrite skipn_length in LEN. lia. }
-    destruct (char_from_u32 ch) as [c|] eqn:E.
-    + apply omap_done in H. destruct H as [g' [H ->]].
-      destruct I as [I|I].
-      * injection I as <- <-. apply char_from_u32_some in E. destruct E as [-> SC].
-        split; [lia|]. split; [exact SC|]. rewrite N.sub_diag. cbn [N.to_nat Nat.mul skipn]. split; [reflexivity|lia].
-      * exact (TL _ H I).
+  intros conv SC. induction fuel as [|f IH]; intros h ch data g H k gl I; rewrite glyphs_loop_eq in H;
+    (destruct (glyphs_stop h ch data) eqn:G; [injection H as <-; destruct I|]); [discriminate|].
+  apply glyphs_stop_false in G. destruct G as [_ [_ G]].
+  destruct (take h data) as [[g0 rest]|] eqn:T; [|discriminate]. cbv zeta in H.
+  apply take_some in T. destruct T as [-> [-> L]].
+  assert (TL : forall g', glyphs_loop conv f h (ch + 1) (skipn h data) = Done g' -> In (k, gl) g' ->
+               ch <= k /\ k < MAX_GLYPHS /\ gl = firstn h (skipn (N.to_nat (k - ch) * h) data) /\
+               ((N.to_nat (k - ch) + 1) * h <= length data)%nat).
+  { intros g' Hg' I'. destruct (IH _ _ _ _ Hg' _ _ I') as [LE [KM [EQ LEN]]].
+    assert (S1 : N.to_nat (k - ch) = S (N.to_nat (k - (ch + 1)))) by lia.
+    split; [lia|]. split; [exact KM|]. rewrite S1. split.
+    - rewrite EQ. rewrite skipn_add. cbn [Nat.mul]. reflexivity.
+    - rewrite skipn_length in LEN. lia. }
+  destruct (conv ch) as [c|] eqn:E.
+  - apply omap_done in H. destruct H as [g' [H ->]].
+    destruct I as [I|I].
+    + injection I as <- <-. rewrite (std_conv_some _ SC _ _ E).
+      split; [lia|]. split; [exact G|]. rewrite N.sub_diag. cbn [N.to_nat Nat.mul skipn]. split; [reflexivity|lia].
     + exact (TL _ H I).
+  - exact (TL _ H I).
 Qed.
 
 Lemma glyphs_keys_are_indices_proof : forall h data g, glyphs conv_glyphs h data = Done g ->
   forall k gl, In (k, gl) g ->
-  scalar k /\ gl = firstn h (skipn (N.to_nat k * h) data) /\ ((N.to_nat k + 1) * h <= length data)%nat.
+  k < MAX_GLYPHS /\ scalar k /\ gl = firstn h (skipn (N.to_nat k * h) data) /\
+  ((N.to_nat k + 1) * h <= length data)%nat.
 Proof.
-  intros h data g H k gl I. apply glyphs_done in H. change conv_glyphs with char_from_u32 in H.
-  destruct (glyphs_loop_keys _ _ _ _ _ H _ _ I) as [_ [SC [EQ LEN]]].
-  rewrite N.sub_0_r in EQ, LEN. auto.
+  intros h data g H k gl I.
+  destruct (glyphs_loop_keys _ conv_glyphs_std _ _ _ _ _ H _ _ I) as [_ [KM [EQ LEN]]].
+  rewrite N.sub_0_r in EQ, LEN. split; [exact KM|]. split; [apply below_max_scalar; exact KM|]. auto.
 Qed.
 
-Lemma glyphs_loop_total : forall conv fuel h ch data, (0 < h)%nat -> (length data <= fuel)%nat ->
-  glyphs_loop conv fuel h ch data <> Diverge.
+(* the loop always ends normally: the slice behind the loop test cannot fail, the fuel is enough *)
+Lemma glyphs_loop_done : forall conv fuel h ch data, (length data <= fuel)%nat ->
+  exists g, glyphs_loop conv fuel h ch data = Done g.
 Proof.
-  intro conv. induction fuel as [|f IH]; intros h ch data Hh L.
-  - destruct data; [discriminate|cbn in L; lia].
-  - destruct data as [|a r]; [discriminate|]. cbn [glyphs_loop].
-    destruct (take h (a :: r)) as [[g0 rest]|] eqn:T; [|discriminate].
-    apply take_rest_length in T.
-    assert (N1 : glyphs_loop conv f h (ch + 1) rest <> Diverge) by (apply IH; [exact Hh|cbn [length] in *; lia]).
-    destruct (conv ch); [apply omap_not_diverge|]; exact N1.
+  intro conv. induction fuel as [|f IH]; intros h ch data L; rewrite glyphs_loop_eq;
+    (destruct (glyphs_stop h ch data) eqn:G; [eexists; reflexivity|]);
+    apply glyphs_stop_false in G; destruct G as [G1 [G2 _]]; [lia|].
+  destruct (take h data) as [[g0 rest]|] eqn:T; [|apply take_none in T; lia]. cbv zeta.
+  apply take_rest_length in T.
+  destruct (IH h (ch + 1) rest) as [g' Hg']; [lia|]. rewrite Hg'.
+  destruct (conv ch); eexists; reflexivity.
 Qed.
 
-(* the loop ends for every positive glyph height; with height 0 and data left it never does (C03's PSF1 finding) *)
-Lemma glyphs_total_proof : forall conv h data,
-  ((0 < h)%nat -> glyphs conv h data <> Diverge) /\ (h = O -> data <> [] -> glyphs conv h data = Diverge).
+(* glyphs_from_u8_data returns for every height and all data: no endless loop (height 0), no slice panic
+   (incomplete last glyph) -- both were possible at the snapshot commit (glyphs_v0) *)
+Lemma glyphs_total_proof : forall conv h data, exists g, glyphs conv h data = Done g.
+Proof. intros conv h data. apply glyphs_loop_done. apply le_n. Qed.
+
+(* every glyph index below MAX_GLYPHS that has a complete chunk in the data IS a key *)
+Lemma glyphs_loop_complete : forall conv, std_conv conv -> forall fuel h ch data g, (0 < h)%nat ->
+  glyphs_loop conv fuel h ch data = Done g ->
+  forall k, ch <= k -> k < MAX_GLYPHS -> ((N.to_nat (k - ch) + 1) * h <= length data)%nat ->
+  In (k, firstn h (skipn (N.to_nat (k - ch) * h) data)) g.
 Proof.
-  intros conv h data. split.
-  - intro Hh. unfold glyphs. destruct h; [lia|]. apply glyphs_loop_total; lia.
-  - intros -> NE. destruct data; [congruence|reflexivity].
+  intros conv SC. induction fuel as [|f IH]; intros h ch data g Hh H k LE KM LEN; rewrite glyphs_loop_eq in H;
+    (rewrite glyphs_stop_false_intro in H; [|exact Hh|nia|lia]); [discriminate|].
+  destruct (take h data) as [[g0 rest]|] eqn:T; [|discriminate]. cbv zeta in H.
+  apply take_some in T. destruct T as [-> [-> L0]].
+  destruct (N.eq_dec k ch) as [->|NE].
+  - rewrite (std_conv_below _ SC _ KM) in H. apply omap_done in H. destruct H as [g' [_ ->]].
+    left. rewrite N.sub_diag. reflexivity.
+  - assert (S1 : N.to_nat (k - ch) = S (N.to_nat (k - (ch + 1)))) by lia.
+    assert (TLK : forall g', glyphs_loop conv f h (ch + 1) (skipn h data) = Done g' ->
+                   In (k, firstn h (skipn (N.to_nat (k - ch) * h) data)) g').
+    { intros g' Hg'. rewrite S1. cbn [Nat.mul]. rewrite <- skipn_add.
+      assert (A2 : ((N.to_nat (k - (ch + 1)) + 1) * h <= length (skipn h data))%nat).
+      { rewrite skipn_length. rewrite S1 in LEN. lia. }
+      assert (A3 : ch + 1 <= k) by lia.
+      exact (IH h (ch + 1) (skipn h data) g' Hh Hg' k A3 KM A2). }
+    destruct (conv ch).
+    + apply omap_done in H. destruct H as [g' [H ->]]. right. apply TLK. exact H.
+    + apply TLK. exact H.
+Qed.
+
+Lemma glyphs_complete_proof : forall h data g, (0 < h)%nat -> glyphs conv_glyphs h data = Done g ->
+  forall k, k < MAX_GLYPHS -> ((N.to_nat k + 1) * h <= length data)%nat ->
+  In (k, firstn h (skipn (N.to_nat k * h) data)) g.
+Proof.
+  intros h data g Hh H k KM LEN.
+  pose proof (glyphs_loop_complete _ conv_glyphs_std (length data) h 0 data g Hh H k (N.le_0_l k) KM) as P.
+  rewrite N.sub_0_r in P. apply P. exact LEN.
 Qed.
 
 Lemma lookup_keys_scalar : forall conv, checked conv -> forall len, Forall scalar (lookup_keys conv len).
@@ -475,12 +591,153 @@ Proof.
     [exact conv_checksum_checked|exact conv_u8data_checked|exact conv_psf2_checked].
 Qed.
 
+(* the loop of the snapshot commit with the conversion of the snapshot commit *)
 Lemma glyphs_before_fix_refuted_proof :
-  exists h data, match glyphs char_from_u32_unchecked h data with
+  exists h data, match glyphs_v0 char_from_u32_unchecked h data with
                  | Done g => forallb (fun kg => scalarb (fst kg)) g = false
                  | _ => False
                  end.
 Proof. exists 1%nat, (repeat 0 (N.to_nat 55297)). vm_compute. reflexivity. Qed.
+
+(* ---- the loaders: BitFont::from_bytes / create_8 / from_basic *)
+Lemma mk_font_done : forall len o f, mk_font len o = Done f -> exists g, o = Done g /\ f = {| ft_length := len; ft_glyphs := g |}.
+Proof. intros len o f H. unfold mk_font in H. apply omap_done in H. exact H. Qed.
+
+Lemma glyphs_n_eq : forall conv h data, glyphs_n conv h data = glyphs conv (N.to_nat h) data.
+Proof.
+  intros conv h data. unfold glyphs_n. destruct (N.ltb_spec (N.of_nat (length data)) h) as [L|L]; [|reflexivity].
+  unfold glyphs. rewrite glyphs_loop_eq. unfold glyphs_stop.
+  assert (S1 : shorter data (N.to_nat h) = true) by (rewrite shorter_spec; apply Nat.ltb_lt; lia).
+  rewrite S1. rewrite orb_true_r. reflexivity.
+Qed.
+
+Lemma drop_some : forall n l, n <= N.of_nat (length l) -> exists r, drop n l = Some r.
+Proof.
+  intros n l H. unfold drop. destruct (N.ltb_spec (N.of_nat (length l)) n) as [L|L]; [lia|]. eexists. reflexivity.
+Qed.
+
+(* what load_psf2 has established when it passes its header tests *)
+Lemma usize_checked_some : forall x y, usize_checked x = Some y -> y = x.
+Proof. intros x y H. unfold usize_checked in H. destruct (x <? _); [injection H as <-; reflexivity|discriminate]. Qed.
+
+Lemma load_psf2_done : forall conv data f, load_psf2 conv data = Done f ->
+  ft_length f <= MAX_GLYPHS /\
+  exists body, drop (le32_at data 8) data = Some body /\
+               glyphs conv (N.to_nat (le32_at data 24)) body = Done (ft_glyphs f).
+Proof.
+  intros conv data f H. unfold load_psf2 in H. cbv zeta in H.
+  destruct (N.of_nat (length data) <? 32); [discriminate|].
+  destruct (PSF2_MAXVERSION <? le32_at data 4); [discriminate|].
+  destruct (negb _ || (MAX_GLYPHS <? le32_at data 16)) eqn:T; [discriminate|].
+  apply orb_false_iff in T. destruct T as [_ T]. apply N.ltb_ge in T.
+  destruct (drop (le32_at data 8) data) as [body|]; [|discriminate].
+  apply mk_font_done in H. destruct H as [g [H ->]]. rewrite glyphs_n_eq in H. cbn [ft_length ft_glyphs].
+  split; [exact T|]. exists body. split; [reflexivity|exact H].
+Qed.
+
+(* load_psf2 never panics on `&data[headersize..]`: the length test implies headersize <= data.len() *)
+Lemma load_psf2_total : forall conv data, load_psf2 conv data = Rejected \/ exists f, load_psf2 conv data = Done f.
+Proof.
+  intros conv data. unfold load_psf2. cbv zeta.
+  destruct (N.of_nat (length data) <? 32); [left; reflexivity|].
+  destruct (PSF2_MAXVERSION <? le32_at data 4); [left; reflexivity|].
+  destruct (negb _ || (MAX_GLYPHS <? le32_at data 16)) eqn:T; [left; reflexivity|].
+  apply orb_false_iff in T. destruct T as [T _]. apply negb_false_iff in T.
+  destruct (usize_checked (le32_at data 16 * le32_at data 20)) as [size|] eqn:U1; [|discriminate].
+  destruct (usize_checked (size + le32_at data 8)) as [e|] eqn:U2; [|discriminate].
+  apply N.eqb_eq in T. apply usize_checked_some in U2.
+  destruct (drop_some (le32_at data 8) data) as [body B]; [lia|]. rewrite B.
+  rewrite glyphs_n_eq. destruct (glyphs_total_proof conv (N.to_nat (le32_at data 24)) body) as [g G]. rewrite G.
+  right. eexists. reflexivity.
+Qed.
+
+Lemma shorter_false : forall l n, shorter l n = false -> (n <= length l)%nat.
+Proof. intros l n H. rewrite shorter_spec in H. apply Nat.ltb_ge in H. exact H. Qed.
+
+(* BitFont::from_bytes returns Ok or Err for EVERY byte string (no panic, no endless loop) *)
+Lemma font_from_bytes_total_proof : forall conv data,
+  font_from_bytes conv data = Rejected \/ exists f, font_from_bytes conv data = Done f.
+Proof.
+  intros conv data. unfold font_from_bytes.
+  destruct (shorter data 4) eqn:S4; [left; reflexivity|]. apply shorter_false in S4.
+  destruct (_ =? PSF1_MAGIC).
+  - destruct data as [|a [|b [|c [|d rest]]]]; cbn [length] in S4; try lia. unfold load_psf1.
+    destruct (glyphs_total_proof conv (N.to_nat d) rest) as [g G]. rewrite G. right. eexists. reflexivity.
+  - destruct (_ =? PSF2_MAGIC); [apply load_psf2_total|].
+    unfold load_plain. cbv zeta. destruct (negb _); [left; reflexivity|].
+    destruct (glyphs_total_proof conv (N.to_nat (N.of_nat (length data) / 256)) data) as [g G]. rewrite G.
+    right. eexists. reflexivity.
+Qed.
+
+Lemma font_create_total_proof : forall conv h data, exists f, font_create conv h data = Done f.
+Proof.
+  intros conv h data. unfold font_create. destruct (glyphs_total_proof conv (N.to_nat h) data) as [g G]. rewrite G.
+  eexists. reflexivity.
+Qed.
+
+(* a loaded font: every key of the glyph map AND the bound of the lookup loops stay below MAX_GLYPHS *)
+Lemma font_from_bytes_bounds : forall conv, std_conv conv -> forall data f, font_from_bytes conv data = Done f ->
+  Forall key_below_max (ft_glyphs f) /\ ft_length f <= MAX_GLYPHS.
+Proof.
+  intros conv SC data f H. unfold font_from_bytes in H.
+  destruct (shorter data 4); [discriminate|].
+  destruct (_ =? PSF1_MAGIC).
+  - unfold load_psf1 in H. destruct data as [|a [|b [|c [|d rest]]]]; try discriminate.
+    apply mk_font_done in H. destruct H as [g [H ->]]. cbn [ft_length ft_glyphs]. split.
+    + eapply glyphs_keys_below_max_proof; [exact SC|exact H].
+    + rewrite max_glyphs_eq. destruct (_ =? _); lia.
+  - destruct (_ =? PSF2_MAGIC).
+    + apply load_psf2_done in H. destruct H as [L [body [_ G]]]. split; [|exact L].
+      eapply glyphs_keys_below_max_proof; [exact SC|exact G].
+    + unfold load_plain in H. cbv zeta in H. destruct (negb _); [discriminate|].
+      apply mk_font_done in H. destruct H as [g [H ->]]. cbn [ft_length ft_glyphs]. split.
+      * eapply glyphs_keys_below_max_proof; [exact SC|exact H].
+      * rewrite max_glyphs_eq. lia.
+Qed.
+
+Lemma font_create_bounds : forall conv, std_conv conv -> forall h data f, font_create conv h data = Done f ->
+  Forall key_below_max (ft_glyphs f) /\ ft_length f <= MAX_GLYPHS.
+Proof.
+  intros conv SC h data f H. unfold font_create in H. apply mk_font_done in H. destruct H as [g [H ->]].
+  cbn [ft_length ft_glyphs]. split; [eapply glyphs_keys_below_max_proof; [exact SC|exact H]|rewrite max_glyphs_eq; lia].
+Qed.
+
+Lemma nrange_aux_In_inv : forall k s i, In i (nrange_aux k s) -> s <= i /\ i < s + N.of_nat k.
+Proof.
+  induction k as [|k IH]; intros s i H; [destruct H|].
+  cbn [nrange_aux] in H. destruct H as [<-|H]; [lia|]. apply IH in H. lia.
+Qed.
+
+Lemma flat_map_singletons : forall (f : N -> list N) l, (forall i, In i l -> f i = [i]) -> flat_map f l = l.
+Proof.
+  intros f l. induction l as [|a r IH]; intro H; [reflexivity|].
+  cbn [flat_map]. rewrite (H a (or_introl eq_refl)). rewrite IH; [reflexivity|]. intros i I. apply H. right. exact I.
+Qed.
+
+(* below MAX_GLYPHS the `0..length` loops look up exactly the chars 0, 1, .., length-1, with either conversion *)
+Lemma lookup_keys_below : forall conv, std_conv conv -> forall len, len <= MAX_GLYPHS ->
+  lookup_keys conv len = nrange len.
+Proof.
+  intros conv SC len L. unfold lookup_keys. apply flat_map_singletons. intros i I.
+  unfold nrange in I. apply nrange_aux_In_inv in I. rewrite (std_conv_below _ SC i); [reflexivity|lia].
+Qed.
+
+Lemma stored_scalar_loaded_font_proof : forall data f, font_from_bytes conv_glyphs data = Done f ->
+  Forall key_scalar (ft_glyphs f) /\ Forall key_below_max (ft_glyphs f) /\ ft_length f <= MAX_GLYPHS /\
+  (forall conv, std_conv conv -> lookup_keys conv (ft_length f) = nrange (ft_length f)).
+Proof.
+  intros data f H. destruct (font_from_bytes_bounds _ conv_glyphs_std _ _ H) as [K L].
+  split; [apply below_max_keys_scalar; exact K|]. split; [exact K|]. split; [exact L|].
+  intros conv SC. apply lookup_keys_below; assumption.
+Qed.
+
+Lemma stored_scalar_created_font_proof : forall h data f, font_create conv_glyphs h data = Done f ->
+  Forall key_scalar (ft_glyphs f) /\ Forall key_below_max (ft_glyphs f) /\ ft_length f = 256.
+Proof.
+  intros h data f H. destruct (font_create_bounds _ conv_glyphs_std _ _ _ H) as [K _].
+  split; [apply below_max_keys_scalar; exact K|]. split; [exact K|].
+  unfold font_create in H. apply mk_font_done in H. destruct H as [g [_ ->]]. reflexivity.
+Qed.
 
 (* ------------------------------------------------------------------ hex macros *)
 Definition latin1 (c : N) : Prop := c < 256.
@@ -625,61 +882,33 @@ Proof.
   apply cells_loop_local; assumption.
 Qed.
 
-Lemma glyphs_loop_local : forall fuel h ch data g,
-  glyphs_loop char_from_u32_unchecked fuel h ch data = Done g -> Forall key_scalar g ->
-  glyphs_loop char_from_u32 fuel h ch data = Done g.
+(* the snapshot loop with the snapshot (unchecked) conversion against the merged function: wherever the old code
+   returned and had stored only scalar values, the merged code returns the very same map *)
+Lemma glyphs_loop_local : forall conv, std_conv conv -> forall fuel h ch data g, (0 < h)%nat -> ch <= MAX_GLYPHS ->
+  glyphs_loop_v0 char_from_u32_unchecked fuel h ch data = Done g -> Forall key_scalar g ->
+  glyphs_loop conv fuel h ch data = Done g.
 Proof.
-  induction fuel as [|f IH]; intros h ch data g H F.
-  - destruct data; [exact H|discriminate].
-  - destruct data as [|a r]; [exact H|]. cbn [glyphs_loop] in *.
-    destruct (take h (a :: r)) as [[g0 rest]|]; [|discriminate].
-    unfold char_from_u32_unchecked in H at 1.
-    apply omap_done in H. destruct H as [g' [H ->]].
-    inversion F as [|? ? S F']; subst. unfold key_scalar in S. cbn in S.
-    rewrite (char_from_u32_scalar _ S). apply omap_done_intro. apply IH; assumption.
+  intros conv SC. induction fuel as [|f IH]; intros h ch data g Hh CM H F; rewrite glyphs_loop_eq.
+  - destruct data; [|discriminate]. injection H as <-. unfold glyphs_stop.
+    destruct h; [lia|]. reflexivity.
+  - destruct data as [|a r].
+    + injection H as <-. unfold glyphs_stop. destruct h; [lia|]. reflexivity.
+    + cbn [glyphs_loop_v0] in H.
+      destruct (take h (a :: r)) as [[g0 rest]|] eqn:T; [|discriminate].
+      unfold char_from_u32_unchecked in H at 1.
+      apply omap_done in H. destruct H as [g' [H ->]].
+      inversion F as [|? ? S F']; subst. unfold key_scalar in S. cbn in S.
+      assert (KM : ch < MAX_GLYPHS).
+      { rewrite max_glyphs_eq in *. destruct S as [S|S]; lia. }
+      pose proof (take_some _ _ _ _ T) as [_ [_ L]].
+      rewrite glyphs_stop_false_intro; [|exact Hh|exact L|exact KM].
+      rewrite (std_conv_below _ SC _ KM). apply omap_done_intro. apply IH; [exact Hh|lia|exact H|exact F'].
 Qed.
 
 Lemma fix_is_local_glyphs_proof : forall h data g,
-  glyphs char_from_u32_unchecked h data = Done g -> Forall key_scalar g -> glyphs conv_glyphs h data = Done g.
+  glyphs_v0 char_from_u32_unchecked h data = Done g -> Forall key_scalar g -> glyphs conv_glyphs h data = Done g.
 Proof.
-  intros h data g H F. change conv_glyphs with char_from_u32. unfold glyphs in *.
-  destruct h; [destruct data; [exact H|discriminate]|]; apply glyphs_loop_local; assumption.
-Qed.
-
-(* every glyph index that is a scalar value and has a complete chunk in the data IS a key (nothing else is dropped) *)
-Lemma glyphs_loop_complete : forall fuel h ch data g, (0 < h)%nat -> (length data <= fuel)%nat ->
-  glyphs_loop char_from_u32 fuel h ch data = Done g ->
-  forall k, ch <= k -> scalar k -> ((N.to_nat (k - ch) + 1) * h <= length data)%nat ->
-  In (k, firstn h (skipn (N.to_nat (k - ch) * h) data)) g.
-Proof.
-  induction fuel as [|f IH]; intros h ch data g Hh L H k LE SC LEN.
-  - destruct data; [cbn in LEN; nia|cbn in L; lia].
-  - destruct data as [|a r]; [cbn in LEN; nia|]. cbn [glyphs_loop] in H.
-    destruct (take h (a :: r)) as [[g0 rest]|] eqn:T; [|discriminate].
-    pose proof (take_rest_length _ _ _ _ T) as TL.
-    apply take_some in T. destruct T as [-> [-> L0]].
-    destruct (N.eq_dec k ch) as [->|NE].
-    + rewrite (char_from_u32_scalar _ SC) in H. apply omap_done in H. destruct H as [g' [_ ->]].
-      left. rewrite N.sub_diag. reflexivity.
-    + assert (S1 : N.to_nat (k - ch) = S (N.to_nat (k - (ch + 1)))) by lia.
-      assert (TLK : forall g', glyphs_loop char_from_u32 f h (ch + 1) (skipn h (a :: r)) = Done g' ->
-                     In (k, firstn h (skipn (N.to_nat (k - ch) * h) (a :: r))) g').
-      { intros g' Hg'. rewrite S1. cbn [Nat.mul]. rewrite <- skipn_add.
-        assert (A1 : (length (skipn h (a :: r)) <= f)%nat) by (rewrite skipn_length; cbn [length] in *; lia).
-        assert (A2 : ((N.to_nat (k - (ch + 1)) + 1) * h <= length (skipn h (a :: r)))%nat).
-        { rewrite skipn_length. rewrite S1 in LEN. lia. }
-        assert (A3 : ch + 1 <= k) by lia.
-        exact (IH h (ch + 1) (skipn h (a :: r)) g' Hh A1 Hg' k A3 SC A2). }
-      destruct (char_from_u32 ch).
-      * apply omap_done in H. destruct H as [g' [H ->]]. right. apply TLK. exact H.
-      * apply TLK. exact H.
-Qed.
-
-Lemma glyphs_complete_proof : forall h data g, (0 < h)%nat -> glyphs conv_glyphs h data = Done g ->
-  forall k, scalar k -> ((N.to_nat k + 1) * h <= length data)%nat ->
-  In (k, firstn h (skipn (N.to_nat k * h) data)) g.
-Proof.
-  intros h data g Hh H k SC LEN. apply glyphs_done in H. change conv_glyphs with char_from_u32 in H.
-  pose proof (glyphs_loop_complete (length data) h 0 data g Hh (le_n _) H k (N.le_0_l k) SC) as P.
-  rewrite N.sub_0_r in P. apply P. exact LEN.
+  intros h data g H F. unfold glyphs_v0 in H. unfold glyphs. destruct h as [|h].
+  - destruct data; [|discriminate]. cbn in H. injection H as <-. reflexivity.
+  - apply (glyphs_loop_local _ conv_glyphs_std); [lia|lia|exact H|exact F].
 Qed.
